@@ -153,6 +153,8 @@ def run(tier):
 
     # ------------------------------------------------------------------ D2 printers: one empty line between paragraphs
     check_printers(F, C)
+    check_value_shapes_reread(F, C)
+    check_dep3_fallbacks(F, C)
     # ------------------------------------------------------------------ D5 paragraph-level print/re-read of every lossy document struct
     # (the per-struct analysis of C16, restricted to the structs the lossy documents are made of)
     import c16
@@ -275,6 +277,89 @@ class PrintMod(roundtrip.RTMod):
             if callee in ("<T as alloc::string::ToString>::to_string", "alloc::string::ToString::to_string"):
                 return [(OK, symstr.mk([("atom", a0[2], "text"), ("lit", "\n")]), st)]
         return super().intrinsic(I, callee, args, st, n)
+
+
+def check_dep3_fallbacks(F, C):
+    """DEP-3 pseudo-headers: the lossy reader's Author/From and Description/Subject fallbacks must select the same
+    field as the lossless accessors on every combination of presence"""
+    lk = "<dep3::lossy::PatchHeader as core::str::traits::FromStr>::from_str"
+    lf = F.fn(lk)
+    if not C.ob("C20/anchor", lk, lf is not None, "not found"):
+        return
+    LPARA = "deb822_lossless::lossy::Paragraph::"
+
+    class M(c15.Mod):
+        cur = None
+
+        def intrinsic(self, I, callee, args, st, n):
+            if callee in ("<deb822_lossless::lossy::Paragraph as core::str::traits::FromStr>::from_str", "<deb822_lossless::lossless::Paragraph as core::str::traits::FromStr>::from_str"):
+                return [(OK, ("enum", OKV, (self.cur,)), st)]
+            if callee.startswith(LPARA):
+                return super().intrinsic(I, c15.PARA + callee[len(LPARA):], args, st, n)
+            return super().intrinsic(I, callee, args, st, n)
+    for primary, fallback, field, acc in (("Author", "From", "author", "author"), ("Description", "Subject", "description", "description")):
+        for has_p in (False, True):
+            for has_f in (False, True):
+                pairs = []
+                if has_f:
+                    pairs.append((symstr.lit(fallback), symstr.atom("from-" + fallback.lower(), "word")))
+                if has_p:
+                    pairs.append((symstr.lit(primary), symstr.atom("from-" + primary.lower(), "word")))
+                para = ("abs", "para", tuple(pairs))
+                label = "%s: %s %s, %s %s" % (field, primary, "present" if has_p else "absent", fallback, "present" if has_f else "absent")
+                mod = M(F)
+                mod.cur = para
+                I = hirai.Interp(F, mod)
+                res = I.inline(lf, [("abs", "text")], hirai.State(depth=0))
+                lossy_vals = set()
+                for ctl, v, s in res:
+                    v = I.deep_deref(s, I.deref_val(s, v), 0) if ctl == OK else v
+                    if ctl == OK and v[0] == "enum" and v[1] == OKV and v[2][0][0] == "struct":
+                        lossy_vals.add(show_value(normalize(dict(v[2][0][2]).get(field))))
+                    else:
+                        lossy_vals.add("%s %s" % (ctl, str(v)[:60]))
+                la = F.fn("dep3::lossless::PatchHeader::" + acc)
+                mod2 = c15.Mod(F)
+                I2 = hirai.Interp(F, mod2)
+                st2 = hirai.State(depth=0).setroot(("T", "view"), ("struct", "dep3::lossless::PatchHeader", (("0", para),)))
+                r2 = I2.inline(la, [("ref", (("T", "view"),))], st2) if la else []
+                lossless_vals = {show_value(normalize(I2.deep_deref(s, I2.deref_val(s, v), 0))) if ctl == OK else "%s" % ctl for ctl, v, s in r2}
+                lossless_vals = {x for x in lossless_vals if "'unk'" not in x} or lossless_vals     # drop undecided forks of split().next()
+                C.ob("C20/dep3-fallbacks", label, len(lossy_vals) == 1 and lossy_vals == lossless_vals,
+                     "the lossy reader yields %s = %s, the lossless accessor %s() yields %s" % (field, sorted(lossy_vals), acc, sorted(lossless_vals)), lf["sp"])
+
+
+def check_value_shapes_reread(F, C):
+    """values the lossy reader can produce (incl. an empty line inside a multi-line value, from a continuation line
+    holding only blanks) must print to text that re-lexes into ONE paragraph with the same field and non-blank lines"""
+    import c05, c07, c08
+    LP = "deb822_lossless::lossy::"
+    mod = roundtrip.RTMod(F)
+    shapes = {
+        "empty line in the middle": [("atom", "l0", "line"), ("lit", "\n\n"), ("atom", "l2", "line")],
+        "two empty lines in the middle": [("atom", "l0", "line"), ("lit", "\n\n\n"), ("atom", "l3", "line")],
+        "empty first line, then an empty line in the middle": [("lit", "\n"), ("atom", "l1", "line"), ("lit", "\n\n"), ("atom", "l3", "line")],
+        "three lines": [("atom", "l0", "line"), ("lit", "\n"), ("atom", "l1", "line"), ("lit", "\n"), ("atom", "l2", "line")],
+    }
+    dk = "<%sField as core::fmt::Display>::fmt" % LP
+    if not C.ob("C20/anchor", dk, F.fn(dk) is not None, "Field Display not found"):
+        return
+    for sname, ps in shapes.items():
+        val = symstr.mk(ps)
+        fv = ("struct", LP + "Field", (("name", symstr.lit("Name")), ("value", val)))
+        follow = ("struct", LP + "Field", (("name", symstr.lit("Next")), ("value", symstr.atom("n", "line"))))
+        texts = []
+        for f in (fv, follow):
+            outs, I = roundtrip.render_value(F, mod, f)
+            texts.append([r for ctl, r in outs if ctl == OK and r[0] in ("sstr", "str")] if len(outs) == 1 else [])
+        if not C.ob("C20/print-decidable", sname, all(len(t) == 1 for t in texts), "Field Display not decidable"):
+            continue
+        pieces = symstr.pieces_of(texts[0][0]) + symstr.pieces_of(texts[1][0])
+        re_toks = c07.relex(F, [("TEXT", symstr.mk(pieces))])
+        paras, err = c05.split_by_dfa(re_toks) if re_toks is not None else (None, "the printed text cannot be re-lexed")
+        want_lines = "\n".join(x for x in symstr.show(val).split("\n") if x != "")
+        C.ob("C20/value-shapes-reread", sname, err is None and paras == [[("Name", want_lines), ("Next", "<n>")]],
+             "a field holding %r followed by another field prints %r, which re-reads as %s (%s); expected one paragraph with the same non-blank lines" % (symstr.show(val), symstr.show(symstr.mk(pieces)), paras, err), F.fn(dk)["sp"])
 
 
 def check_printers(F, C):
